@@ -22,4 +22,5 @@ def main (args : List String) : IO UInt32 := do
   | ["C18"] => Proto.runLoop (C18.driverStep C18.Generated.saveFns) {}; return 0
   | ["C17"] => Proto.runLoop C17.driverStep (); return 0
   | ["C06"] => Proto.runLoop C06.driverStep (); return 0
+  | ["C16"] => Proto.runLoop C16.driverStep {}; return 0
   | _ => IO.eprintln s!"unknown driver {args}"; return 2
